@@ -95,11 +95,12 @@ SYNC_INVS = ["Correct", "OrderCorrect", "DirCorrect", "OneToOneInv", "Mutual", "
 
 def _sync_cfgs(tier):
     if tier == QUICK:
-        return [dict(TS=0, TE=5, MaxSp=6, MRTSQ=tla_set([0, 12]), TauQ=tla_set([0, 2, 4])),
-                dict(TS=-2, TE=5, MaxSp=3, MRTSQ=tla_set([0, 8]), TauQ=tla_set([0, 3]))]
-    return [dict(TS=0, TE=6, MaxSp=7, MRTSQ=tla_set([0, 8, 12, 24]), TauQ=tla_set([0, 2, 4, 8])),
-            dict(TS=-2, TE=6, MaxSp=3, MRTSQ=tla_set([0, 8, 12]), TauQ=tla_set([0, 2, 3, 6])),
-            dict(TS=0, TE=9, MaxSp=3, MRTSQ=tla_set([0, 12]), TauQ=tla_set([0, 4, 6]))]
+        # max_tau from well below an ISI to beyond the recording length (TauQ are quarters)
+        return [dict(TS=0, TE=5, MaxSp=6, MRTSQ=tla_set([0, 12]), TauQ=tla_set([0, 2, 4, 14])),
+                dict(TS=-2, TE=5, MaxSp=3, MRTSQ=tla_set([0, 8]), TauQ=tla_set([0, 3, 40]))]
+    return [dict(TS=0, TE=6, MaxSp=7, MRTSQ=tla_set([0, 8, 12, 24]), TauQ=tla_set([0, 2, 4, 8, 16])),
+            dict(TS=-2, TE=6, MaxSp=3, MRTSQ=tla_set([0, 8, 12]), TauQ=tla_set([0, 2, 3, 6, 20, 100])),
+            dict(TS=0, TE=9, MaxSp=3, MRTSQ=tla_set([0, 12]), TauQ=tla_set([0, 4, 6, 30]))]
 
 
 def _run_sync(ctx, checkers, what):
